@@ -515,5 +515,7 @@ func checkC01(r *core.Result) {
 	r.Floor("reject predicates evaluated", np, 8)
 	verifyPureRanges(r, prog)
 	checkVarintClasses(r, prog)
+	// (6) value-level round trip, bit for bit, on every partition of the input space
+	checkBitRoundTrips(r, prog, prog.Pkg(""), r.Tier == "thorough")
 	_ = bounds.QualifiedName
 }
